@@ -23,7 +23,7 @@ func All() map[string]orch.PropertySpec {
 			Parts: []orch.Part{{Family: fam.Forgery{}, Monitors: []string{"C01"}}, {Family: fam.Xmlenc{}, Monitors: []string{"C01"}}, {Family: fam.Reconf{}, Monitors: []string{"C01"}}, {Family: fam.Protocol{}, Monitors: []string{"P_STATE"}}}},
 		"C02": {ID: "C02", Level: "model_checking", Assumptions: trusted,
 			Rule:  "cases are all combinations TLC enumerates from spec/Trust.tla: message kind (SSO root-signed, SSO assertion-signed, LogoutRequest, LogoutResponse) x signing key (trusted A, trusted B, untrusted) x certificate shown (A, B, untrusted, none) x store composition (0..2 certificates) x SP clock relative to the staggered certificate windows x altered content, plus the root-signature states of spec/Forgery.tla; every case is replayed; non-trivial = a signature is present or the store is non-empty",
-			Parts: []orch.Part{{Family: fam.Trust{}, Monitors: []string{"C02"}}, {Family: fam.Forgery{}, Monitors: []string{"C02"}}, {Family: fam.Reconf{}, Monitors: []string{"C02"}}}},
+			Parts: []orch.Part{{Family: fam.Trust{}, Monitors: []string{"C02"}}, {Family: fam.Forgery{}, Monitors: []string{"C02"}}, {Family: fam.Logout{}, Monitors: []string{"C02"}}, {Family: fam.Reconf{}, Monitors: []string{"C02"}}}},
 		"C03": {ID: "C03", Level: "model_checking", Assumptions: trusted,
 			Rule:  "cases are all documents TLC enumerates from spec/Profile.tla: the all-correct Response with 0..3 assertions and every set of at most two deviations from a 43-entry fault catalogue (root: Version, Destination, Issuer, Status; per assertion position: Issuer, Subject, SubjectConfirmation, Method, SubjectConfirmationData, Recipient, NotOnOrAfter), signed by the simulated IdP at the Response or at every assertion, or unsigned in skip mode, with and without a configured issuer; all replayed through ValidateEncodedResponse and RetrieveAssertionInfo; non-trivial = every case (each reaches profile validation)",
 			Parts: []orch.Part{{Family: fam.Profile{}, Monitors: []string{"C03"}}, {Family: fam.Time{}, Monitors: []string{"C03"}}}},
